@@ -541,6 +541,14 @@ enum Mut {
     WsPush(usize, u8),
     /// insert a byte into witness script k at position j
     WsInsert(usize, usize, u8),
+    // the semantic arguments of the raw entry point
+    ArgNum(u64),
+    ArgFeerate(u32),
+    ArgDropHtlc(bool, usize),
+    ArgDupHtlc(bool, usize),
+    ArgSwapLists,
+    ArgCltv(bool, usize, u32),
+    ArgValue(bool, usize, u64),
 }
 
 impl Mut {
@@ -557,6 +565,9 @@ impl Mut {
             Mut::Spk(..) | Mut::SpkByte(..) => "script_pubkey",
             Mut::Ws(..) | Mut::WsByte(..) | Mut::WsTrunc(_) | Mut::WsPush(..) | Mut::WsInsert(..) => "witscript",
             Mut::SpkFix(_) => "script_pubkey",
+            Mut::ArgNum(_) => "arg_commit_num",
+            Mut::ArgFeerate(_) => "arg_feerate",
+            Mut::ArgDropHtlc(..) | Mut::ArgDupHtlc(..) | Mut::ArgSwapLists | Mut::ArgCltv(..) | Mut::ArgValue(..) => "arg_htlcs",
             Mut::DropOut(_) | Mut::DupOut(_) | Mut::AddOut(..) => "output_count",
             Mut::SwapOut(..) => "output_order",
             Mut::SwapWs(..) => "witscript_order",
@@ -590,6 +601,47 @@ impl Mut {
             Mut::WsTrunc(k) => format!("MWsTrunc {}", k),
             Mut::WsPush(k, b) => format!("MWsPush {} {}", k, b),
             Mut::WsInsert(k, j, b) => format!("MWsInsert {} {} {}", k, j, b),
+            Mut::ArgNum(n) => format!("ANum {}", n),
+            Mut::ArgFeerate(f) => format!("AFeerate {}", f),
+            Mut::ArgDropHtlc(o, k) => format!("ADropHtlc {} {}", coq_bool(*o), k),
+            Mut::ArgDupHtlc(o, k) => format!("ADupHtlc {} {}", coq_bool(*o), k),
+            Mut::ArgSwapLists => "ASwapLists".into(),
+            Mut::ArgCltv(o, k, v) => format!("ACltv {} {} {}", coq_bool(*o), k, v),
+            Mut::ArgValue(o, k, v) => format!("AValue {} {} {}", coq_bool(*o), k, v),
+        }
+    }
+    /// the effect on the semantic arguments (commitment number, fee rate, HTLC lists)
+    fn apply_args(&self, c: &mut Case) {
+        match self {
+            Mut::ArgNum(n) => c.n = *n,
+            Mut::ArgFeerate(f) => c.feerate = *f,
+            Mut::ArgDropHtlc(o, k) => {
+                let l = if *o { &mut c.offered } else { &mut c.received };
+                if *k < l.len() {
+                    l.remove(*k);
+                }
+            }
+            Mut::ArgDupHtlc(o, k) => {
+                let l = if *o { &mut c.offered } else { &mut c.received };
+                if *k < l.len() {
+                    let h = l[*k].clone();
+                    l.insert(*k, h);
+                }
+            }
+            Mut::ArgSwapLists => std::mem::swap(&mut c.offered, &mut c.received),
+            Mut::ArgCltv(o, k, v) => {
+                let l = if *o { &mut c.offered } else { &mut c.received };
+                if *k < l.len() {
+                    l[*k].cltv = *v
+                }
+            }
+            Mut::ArgValue(o, k, v) => {
+                let l = if *o { &mut c.offered } else { &mut c.received };
+                if *k < l.len() {
+                    l[*k].value = *v
+                }
+            }
+            _ => {}
         }
     }
     fn apply(&self, tx: &mut Transaction, ws: &mut Vec<Vec<u8>>) {
@@ -726,6 +778,7 @@ impl Mut {
                     ws[*k].insert(*j, *b)
                 }
             }
+            _ => {}
         }
     }
 }
@@ -859,6 +912,28 @@ fn mutants(rng: &mut Rng, tx: &Transaction, ws: &[Vec<u8>], full: bool, quick: b
         for g in garbage {
             out.push(vec![Mut::Ws(k, g), Mut::SpkFix(k)]);
         }
+    }
+    // the caller lies about the content while supplying the canonical transaction
+    for d in [1u64, 2, 1 << 24, 1 << 47] {
+        out.push(vec![Mut::ArgNum(c.n ^ d)]);
+    }
+    out.push(vec![Mut::ArgNum(c.n.wrapping_add(1))]);
+    for f in [c.feerate + 1, c.feerate.saturating_sub(1), 253, 100_000] {
+        if f != c.feerate {
+            out.push(vec![Mut::ArgFeerate(f)]);
+        }
+    }
+    for (o, l) in [(true, &c.offered), (false, &c.received)] {
+        for k in 0..l.len() {
+            out.push(vec![Mut::ArgDropHtlc(o, k)]);
+            out.push(vec![Mut::ArgDupHtlc(o, k)]);
+            out.push(vec![Mut::ArgCltv(o, k, l[k].cltv ^ 1)]);
+            out.push(vec![Mut::ArgCltv(o, k, l[k].cltv.wrapping_add(256) % 500_000_000)]);
+            out.push(vec![Mut::ArgValue(o, k, l[k].value + 1)]);
+        }
+    }
+    if !c.offered.is_empty() || !c.received.is_empty() {
+        out.push(vec![Mut::ArgSwapLists]);
     }
     out.push(vec![Mut::AddWs(vec![0x51])]);
     // foreign outputs: a p2wpkh, an anchor for a foreign key, an anchor for our own funding key
@@ -1016,11 +1091,13 @@ fn decode_and_validate(live: &Live, c: &Case, pcp: &PublicKey, tx: &Transaction,
 
 /// the model's `accept` at the content read from a decoded transaction: does the semantic entry
 /// point, on a fresh node in the same state, sign that content?
-fn accepts(secp: &Secp256k1<All>, c: &Case, pcp: &PublicKey, obs: &InfoObs) -> bool {
-    let mut c2 = c.clone();
+fn accepts(secp: &Secp256k1<All>, c: &Case, args: &Case, pcp: &PublicKey, obs: &InfoObs) -> bool {
+    // the node is prepared as for the original case; the content is the (possibly changed)
+    // arguments with the balances read from the transaction
+    let mut c2 = args.clone();
     c2.to_holder = obs.cs_value;
     c2.to_cp = obs.b_value;
-    match make_live(secp, &c2) {
+    match make_live(secp, c) {
         Some(live) => matches!(phase2(&live, &c2, pcp), R::Ok(_)),
         None => false,
     }
@@ -1227,10 +1304,13 @@ fn run(args: &Args) {
         for ms in all.iter() {
             let mut tx = mtx.clone();
             let mut ws = m.ws.clone();
+            let mut ca = c.clone();
             for mu in ms {
                 mu.apply(&mut tx, &mut ws);
+                mu.apply_args(&mut ca);
             }
-            if !ms.is_empty() && tx == mtx && ws == m.ws {
+            let args_changed = ms.iter().any(|x| x.class().starts_with("arg_"));
+            if !ms.is_empty() && tx == mtx && ws == m.ws && !args_changed {
                 continue; // not a change
             }
             let mut mine: BTreeMap<Vec<u8>, Vec<u8>> = BTreeMap::new();
@@ -1239,12 +1319,12 @@ fn run(args: &Args) {
             }
             let keys: Vec<String> = mine.keys().map(|k| hexs(k)).collect();
             oracle.extend(mine);
-            let (obs, _validator_ok) = decode_and_validate(&a, &c, &k.pcp, &tx, &ws);
+            let (obs, _validator_ok) = decode_and_validate(&a, &ca, &k.pcp, &tx, &ws);
             let acc = match &obs {
-                Some(o) => accepts(&secp, &c, &k.pcp, o),
+                Some(o) => accepts(&secp, &c, &ca, &k.pcp, o),
                 None => false,
             };
-            let r1 = phase1(&a, &c, &k.pcp, &tx, &ws);
+            let r1 = phase1(&a, &ca, &k.pcp, &tx, &ws);
             let ok = matches!(r1, R::Ok(_));
             let class = if ms.is_empty() { "canonical".to_string() } else { ms.iter().map(|x| x.class()).collect::<BTreeSet<_>>().into_iter().collect::<Vec<_>>().join("+") };
             if !ms.is_empty() {
@@ -1280,8 +1360,8 @@ fn run(args: &Args) {
                         // point signs as well; that it is the canonical transaction of that content is what
                         // the model's sign_phase1 is compared on (pass B)
                         let tx_changed = tx != mtx;
-                        if tx_changed && !acc {
-                            viol.push(json!({"what": "phase 1 signed a transaction whose content the semantic entry point refuses",
+                        if !acc {
+                            viol.push(json!({"what": "phase 1 signed for a content (its arguments and the balances of the supplied transaction) that the semantic entry point refuses",
                                              "mutation": ms.iter().map(|x| x.coq()).collect::<Vec<_>>(), "tx": hexs(&serialize(&tx))}));
                         }
                         if !on_supplied {
